@@ -6,6 +6,7 @@ import (
 	"strings"
 	"time"
 
+	"github.com/goghcrow/yae/parser/ast"
 	"github.com/goghcrow/yae/vm"
 
 	"verif/harness/bridge"
@@ -21,6 +22,9 @@ type ProgCase struct {
 	Env  *bridge.Env
 	User []*ref.Fun
 	Back []bridge.Backend // nil = all four
+	// AsAST: feed the explicit tree directly (no lexer / parser); Src is then
+	// only a label
+	AsAST bool
 }
 
 // BackObs is what one back end did.
@@ -47,6 +51,9 @@ type ProgObs struct {
 	BCErr    error
 	VMRefuse string
 }
+
+// set by C11's workload: structurally unsafe code is reported, not run
+var skipExecOnBadBytecode = false
 
 func funTable(user []*ref.Fun) *ref.FunTable {
 	ft := ref.Builtins()
@@ -76,7 +83,26 @@ func RunProg(pc *ProgCase) *ProgObs {
 		bo := &BackObs{}
 		o.Back[b] = bo
 		sess := bridge.NewSession(pc.User)
-		c, cerr := sess.Compile(pc.Src, pc.Env.TypeEnv(), b)
+		var c *bridge.Compiled
+		var cerr *bridge.CompileErr
+		if pc.AsAST {
+			var tree ast.Expr
+			if e := func() (err *bridge.CompileErr) {
+				defer func() {
+					if r := recover(); r != nil {
+						err = &bridge.CompileErr{Stage: "parse", Msg: fmt.Sprint(r)}
+					}
+				}()
+				tree = bridge.ToAST(pc.E)
+				return nil
+			}(); e != nil {
+				cerr = e
+			} else {
+				c, cerr = sess.CompileTree(tree, pc.Env.TypeEnv(), b)
+			}
+		} else {
+			c, cerr = sess.Compile(pc.Src, pc.Env.TypeEnv(), b)
+		}
 		if cerr != nil {
 			bo.CompErr = cerr
 			continue
@@ -93,6 +119,11 @@ func RunProg(pc *ProgCase) *ProgObs {
 				p := vm.VerifCompile(c.Tree, sess.VEnv)
 				o.BC, o.BCErr = bridge.VerifyProgram(p)
 			}()
+		}
+		if skipExecOnBadBytecode && o.BCErr != nil && (b == bridge.VM || b == bridge.VMCall) {
+			// C11 only: code that failed verification is not executed
+			bo.Skipped = "bytecode failed verification"
+			continue
 		}
 		bo.Res = c.Exec(pc.Env.ValEnv())
 		if bo.Res.Class == bridge.OValue {
